@@ -36,7 +36,8 @@ def _leafA(v):
 
 
 def _leafB(v):
-    def leafB(x):
+    def leafB(x, scale=("unit", 31337)):
+        # `scale` is a defaulted parameter: recorded as a keyword argument whose value is new to the database
         trace.enter("leafB", x)
         return x * [2, 3, 5][v]
     return leafB
@@ -45,14 +46,14 @@ def _leafB(v):
 def _plus(v):
     def plus(a, b):
         trace.enter("plus", a, b)
-        return a + b + [0, 1000, 2000][v]
+        return a + (b - 40000) + [0, 1000, 2000][v]
     return plus
 
 
 def _mid(v):
     def mid(x):
         trace.enter("mid", x)
-        return T["plus"](T["leafA"](x), [0, 10, 20][v])
+        return T["plus"](T["leafA"](x), b=[0, 10, 20][v] + 40000)   # keyword argument
     return mid
 
 
